@@ -32,16 +32,16 @@ CLAIMS = {
    note=TB + "Field-structure theorems per method are partial (lengths/alphabets proved, exact decomposition checked by the recogniser).",
    technique="Lean 4 proof + recogniser oracle over grammar-shaped stream", ref="DESIGN.md §6 C06"),
  "C10": dict(
-   text="Lean theorems: the three gensalt entry points coincide, NULL selects the default prefix, the method is chosen by the leading tag only, results fit; C10_accept (method level, arbitrary digests, every count / random input / nrbytes / output size): what the writers of NT, descrypt, bsdicrypt, md5crypt, sha256crypt, sha512crypt, sha1crypt and bcrypt ($2a/$2b/$2y) produce is accepted by the same method's front-end for every phrase, and the hash begins with the generated setting; correspondence for all prefixes x counts x nrbytes 0..256 x entry points; oracle feeds every generated setting to crypt_checksalt and crypt and checks the literal-prefix clause.",
-   note=TB + "For sunmd5, bigcrypt, scrypt, yescrypt and gost-yescrypt the clause 'crypt accepts every generated setting' is decided by the oracle (compute-budgeted: scrypt and large yescrypt costs are cut and counted), not yet by a theorem; the lift of C10_accept from the method level to crypt_gensalt_rn/crypt (dispatch) is by correspondence.",
-   technique="Lean 4 proof (partial) + gensalt->checksalt->crypt oracle", ref="DESIGN.md §6 C10"),
+   text="Lean theorems: the three gensalt entry points coincide, NULL selects the default prefix, the method is chosen by the leading tag only, results fit; C10_accept_all (method level, arbitrary digests, every count / random input / nrbytes / output size, all sixteen methods): what a method's gensalt writer produces is accepted by the same method's front-end for every phrase, and the hash begins with the generated setting (yescrypt family: provided the KDF finds its memory - the generated parameters always pass its sanity checks; bigcrypt in a build without descrypt keeps the two salt characters but, by upstream's design, not the twelve filler characters); correspondence for all prefixes x counts x nrbytes 0..256 x entry points; oracle feeds every generated setting to crypt_checksalt and crypt and checks the literal-prefix clause.",
+   note=TB + "The lift of C10_accept_all from the method level to crypt_gensalt_rn/crypt (dispatch of the generated setting back to the same table row) is by correspondence and oracle; bcrypt needs its run-time self-test to pass and the yescrypt family its memory (both hypotheses of the theorem).",
+   technique="Lean 4 proof (acceptance for all 16 methods) + gensalt->checksalt->crypt oracle", ref="DESIGN.md §6 C10"),
  "C11": dict(
-   text="Lean theorems for the cost each writer encodes (sha clamp, SunMD5 floor and no 32-bit wrap, sha1crypt window, bsdicrypt odd/<=2^24-1, fixed-cost and $2x$ rejections, bcrypt range); an independent decoder written from crypt(5) checks the documented function of count for 6k counts x 15 prefixes.",
-   note=TB + "scrypt/yescrypt cost fields are decided by the decoder oracle and the correspondence, their decode(encode) lemma is not proved yet.",
+   text="Lean theorems for the cost each writer encodes (sha clamp, SunMD5 floor and no 32-bit wrap, sha1crypt window, bsdicrypt odd/<=2^24-1, fixed-cost and $2x$ rejections, bcrypt / yescrypt / gost-yescrypt / scrypt range rejections) and, end to end, for the cost crypt APPLIES to a generated setting: yescrypt and gost-yescrypt run the KDF with N = 2^(c+9), r = 8 (c < 3) or N = 2^(c+7), r = 32, p = 1; scrypt with N = 2^(c+7), r = 32, p = 1; sunmd5 with 4096 + the printed count; sha256/512crypt with the documented clamp - read back by the method's own parser; an independent decoder written from crypt(5) checks the documented function of count for 6k counts x 15 prefixes.",
+   note=TB + "End-to-end (applied-cost) theorems exist for the yescrypt family, sunmd5 and sha256/512crypt; for bcrypt, bsdicrypt and sha1crypt the writer-level theorem plus the acceptance theorem of C10 and the decoder oracle stand in.",
    technique="Lean 4 proof (partial) + independent cost decoder", ref="DESIGN.md §6 C11"),
  "C12": dict(
-   text="Lean theorems: too-short random input gives EINVAL for every salted writer, the OS-entropy request size from the generated dispatch table is sufficient for every method, the 3-byte -> 4-character packer is injective; oracle flips every bit of the consumed window (must change the salt) and bits outside (must not), checks minimum/standard salt sizes and that two NULL-rbytes calls differ.",
-   note=TB + "The OS CSPRNG is a parameter of the model; whole-writer injectivity is by the bit-flip oracle, proved only for the packer.",
+   text="Lean theorems: too-short random input gives EINVAL for every salted writer, the OS-entropy request size from the generated dispatch table is sufficient for every method, the 3-byte -> 4-character packer is injective; for yescrypt, gost-yescrypt and scrypt a generated setting determines the min(nrbytes,64) >= 16 random bytes it was made from, and yescrypt_r's parser hands exactly those bytes to the KDF; oracle flips every bit of the consumed window (must change the salt) and bits outside (must not), checks minimum/standard salt sizes and that two NULL-rbytes calls differ.",
+   note=TB + "The OS CSPRNG is a parameter of the model; whole-writer injectivity is proved for the yescrypt family and for the packer; for the other writers it is by the bit-flip oracle.",
    technique="Lean 4 proof (partial) + bit-flip oracle", ref="DESIGN.md §6 C12"),
  "C16": dict(
    text="Lean theorem (generic Merkle-Damgard context): for every message and every chunking, final(update*(init)) equals the published one-shot definition; instantiated for MD4, MD5, SHA-1, SHA-256, SHA-512; Streebog-256/512 through Init/Update/Final equal their one-shot definition for every chunking (C16_streebog256/512_streaming); HMAC built from streaming calls is RFC 2104; padding yields whole blocks. Compression functions and constants come from the tree; correspondence + hashlib/RFC oracles over lengths 0..1100, all split points, alignments, HMAC keys 0..200, PBKDF2 grids.",
@@ -84,9 +84,9 @@ CLAIMS = {
    note=TB + "For bcrypt, yescrypt and gost-yescrypt the 'specification' is the Lean model itself validated cross-release (no independent specification is available in the sandbox); Model = Spec theorems exist for the digest-based cores, the rest is by correspondence.",
    technique="Lean 4 model + proof (partial) with exact correspondence and independent-implementation oracles", ref="DESIGN.md §6 C02"),
  "C03": dict(
-   text="Perturbation oracle on the implementation and the model (full outputs): every single-bit flip, truncation and extension inside the documented significant window changes the hash, flips outside it (bytes beyond 8/128/72, 8th bit for DES-based methods) do not, every salt character change changes the hash part; Lean theorems: the exact insignificant windows of descrypt; the digest encoders are injective (permEncode over the schedules regenerated from the tree, sha1/DES/bcrypt/yescrypt encoders, hex); reductions C03_<m>_reduction for md5crypt, sha256crypt, sha512crypt, sha1crypt, sunmd5, NT, descrypt, bsdicrypt, bcrypt, yescrypt, scrypt: two phrases (with any two settings) that give the same hash used the same salt and cost, and the method's core function - arbitrary, only its output length is assumed - returned the same digest for both: a false accept is exactly a collision of the underlying construction.",
-   note=TB + "Collision resistance of the primitives is a cryptographic assumption and is not provable; the theorems cover the structural part (what is and is not fed to the primitive, injective encodings, reduction to a collision); bigcrypt and gost-yescrypt have no reduction theorem yet (perturbation oracle + exact correspondence).",
-   technique="Lean 4 proof (reduction to collisions of the core function, 11 methods) + exhaustive-position perturbation oracle", ref="DESIGN.md §6 C03"),
+   text="Perturbation oracle on the implementation and the model (full outputs): every single-bit flip, truncation and extension inside the documented significant window changes the hash, flips outside it (bytes beyond 8/128/72, 8th bit for DES-based methods) do not, every salt character change changes the hash part; Lean theorems: the exact insignificant windows of descrypt; the digest encoders are injective (permEncode over the schedules regenerated from the tree, sha1/DES/bcrypt/yescrypt encoders, hex); the insignificant windows of bigcrypt (beyond 128 bytes) and bcrypt (beyond 72 bytes); reductions C03_<m>_reduction for all sixteen methods (md5crypt, sha256crypt, sha512crypt, sha1crypt, sunmd5, NT, descrypt, bsdicrypt, bcrypt, yescrypt, scrypt, gost-yescrypt, bigcrypt - the last one segment by segment): two phrases (with any two settings) that give the same hash used the same salt and cost, and the method's core function - arbitrary, only its output length is assumed - returned the same digest for both: a false accept is exactly a collision of the underlying construction.",
+   note=TB + "Collision resistance of the primitives is a cryptographic assumption and is not provable; the theorems cover the structural part (what is and is not fed to the primitive, injective encodings, reduction to a collision); the bcrypt window theorem is about the model's BF_set_key, tied to crypt-bcrypt.c by the full-output correspondence.",
+   technique="Lean 4 proof (reduction to collisions of the core function, all 16 methods; documented windows) + exhaustive-position perturbation oracle", ref="DESIGN.md §6 C03"),
 }
 NOT_YET = "check under construction in this round; not claimed yet"
 
